@@ -204,10 +204,15 @@ def consistency_reach(repo: Repo) -> RuleRun:
         if raiser.cls is None or len(raiser.params) != 1:
             continue
 
-        def mk(counts, coin=None):
+        wire_cls = repo.cls("items.wires.wire.Wire")
+
+        def mk(counts, coin=None, anti=False):
             wires = []
             for i, c in enumerate(counts):
-                w = Obj(f"w{i}")
+                w = Obj(f"w{i}", cls=wire_cls)
+                w.set("vertices", [Sym(f"va{i}"), Sym(f"vb{i}")])
+                w.set("corners", [0, 1])
+                w.set("axis", 0)
                 g = Obj(f"g{i}")
                 g.set("count", c)
                 g.set("counts", [2, c - 2])
@@ -217,7 +222,11 @@ def consistency_reach(repo: Repo) -> RuleRun:
                 wires.append(w)
             if coin is not None:
                 idx, ccount, cdef = coin
-                cw = Obj("cw")
+                cw = Obj("cw", cls=wire_cls)
+                ends = [Sym(f"va{idx}"), Sym(f"vb{idx}")]
+                cw.set("vertices", ends[::-1] if anti else ends)
+                cw.set("corners", [0, 1])
+                cw.set("axis", 0)
                 cg = Obj("cg")
                 cg.set("count", ccount)
                 cg.set("counts", [ccount - 2, 2])
@@ -237,6 +246,8 @@ def consistency_reach(repo: Repo) -> RuleRun:
             ("neighbour block demands another count on wire 0", mk([5, 5, 5, 5], (0, 7, True)), True),
             ("neighbour block demands another count on wire 3", mk([5, 5, 5, 5], (3, 4, True)), True),
             ("neighbour block agrees", mk([5, 5, 5, 5], (2, 5, True)), False),
+            ("neighbour block demands another count on wire 1, its wire running the other way", mk([5, 5, 5, 5], (1, 7, True), anti=True), True),
+            ("neighbour block agrees, its wire running the other way", mk([5, 5, 5, 5], (2, 5, True), anti=True), False),
         ]
         for label, mgr, should in cases:
             try:
@@ -294,7 +305,10 @@ def consistency_reach(repo: Repo) -> RuleRun:
                 common.set("counts", [2, 3])
                 common.set("is_defined", True)
                 for w in range(4):
-                    wire = Obj(f"w{b}{a}{w}")
+                    wire = Obj(f"w{b}{a}{w}", cls=repo.cls("items.wires.wire.Wire"))
+                    wire.set("vertices", [Sym(f"va{b}{a}{w}"), Sym(f"vb{b}{a}{w}")])
+                    wire.set("corners", [0, 1])
+                    wire.set("axis", a)
                     if shared:
                         g = common
                     else:
@@ -314,7 +328,10 @@ def consistency_reach(repo: Repo) -> RuleRun:
                         g.set("is_defined", True)
                         wires[w].set("grading", g)
                     else:
-                        cw, cg = Obj("cw"), Obj("cg")
+                        cw, cg = Obj("cw", cls=repo.cls("items.wires.wire.Wire")), Obj("cg")
+                        cw.set("vertices", [Sym(f"vb{b}{a}{w}"), Sym(f"va{b}{a}{w}")] if w % 2 else [Sym(f"va{b}{a}{w}"), Sym(f"vb{b}{a}{w}")])
+                        cw.set("corners", [0, 1])
+                        cw.set("axis", a)
                         cg.set("count", {"agree": 5, "inter-set": 7}.get(kind, 8))
                         cg.set("counts", {"agree": [3, 2], "inter-set": [2, 3, 2]}.get(kind, [2, 6]))
                         cg.set("is_defined", True)
